@@ -36,6 +36,10 @@ func init() {
 
 func runC13(c *Ctx) {
 	c13CheckpointLock(c)
+	// idle silence: the WAL range a sync records ends at the last *committed* frame.  A
+	// range that includes a rolled-back tail makes the next verify disagree with the last
+	// LTX file and forces a snapshot on every idle sync (rule shared with C09/C02)
+	c09PageMap(c, "C13")
 	// R1 idle skip
 	if fn := c.fn("R1-idle-sync-creates-nothing", "(*ls.DB).sync"); fn != nil {
 		const rule = "R1-idle-sync-creates-nothing"
@@ -305,7 +309,7 @@ func c13Gate(c *Ctx) {
 	// it loops while limited: the call is in a loop
 	for _, k := range callsTo(sy, nameIs("(*ls.DB).syncOnce")) {
 		c.check(innermostLoopOf(naturalLoops(sy), k.Block()) != nil, rule, fnName(sy)+": syncOnce is retried in a loop while chunks are limited", c.pos(k), "in loop", "no catch-up loop")
-		a := k.Common().Args
+		a := refArgs(k)
 		c.check(vFieldLoad("DB.MaxSyncWALBytes", nil)(a[2]), rule, fnName(sy)+": chunk size = db.MaxSyncWALBytes", c.pos(k), "provenance matches", "unexpected chunk size")
 	}
 }
@@ -326,7 +330,7 @@ func runC06(c *Ctx) {
 			c.check(okL && okS, rule1, name+": lists level dstLevel-1 from MaxTXID(dstLevel)+1", c.pos(l), "provenance matches", "compaction does not start where the previous file of the destination level ended")
 		}
 		for _, m := range callsTo(fn, nameIs("(*ls.Compactor).MaxLTXFileInfo")) {
-			c.check(vParam("dstLevel")(m.Common().Args[2]), rule1, name+": previous maximum taken from the destination level", c.pos(m), "dstLevel", "wrong level")
+			c.check(vParam("dstLevel")(refArgs(m)[2]), rule1, name+": previous maximum taken from the destination level", c.pos(m), "dstLevel", "wrong level")
 			okF, why := failStopOK(fn, m)
 			c.check(okF, rule1, name+": a failed lookup of the destination maximum fails the compaction", c.pos(m), "fail-stop", why)
 		}
@@ -373,7 +377,7 @@ func runC06(c *Ctx) {
 			const rule3 = "R3-range-from-all-inputs"
 			item := vResult(isItem, 0)
 			for _, w := range callsTo(fn, nameHasSuffix(".WriteLTXFile")) {
-				a := w.Common().Args
+				a := refArgs(w)
 				okMin, okMax := false, false
 				for _, o := range origins(a[2]) {
 					if vFieldLoad("FileInfo.MinTXID", item)(o) {
@@ -406,7 +410,7 @@ func runC06(c *Ctx) {
 		}
 		// remote inputs are read through the resumable reader with the listed size
 		for _, nr := range callsToDeep(fn, nameIs("ls/internal.NewResumableReader")) {
-			a := nr.Common().Args
+			a := refArgs(nr)
 			item := vResult(isItem, 0)
 			ok := vFieldLoad("FileInfo.Level", item)(a[2]) && vFieldLoad("FileInfo.MinTXID", item)(a[3]) && vFieldLoad("FileInfo.MaxTXID", item)(a[4]) && vFieldLoad("FileInfo.Size", item)(a[5])
 			c.check(ok, "R2-no-input-skipped", name+": remote input opened for the listed (level, min, max, size)", c.pos(nr), "provenance matches", "input does not correspond to the listed file")
@@ -433,7 +437,7 @@ func runC06(c *Ctx) {
 		}
 		for _, k := range callsTo(cd, nameIs("(*ls.DB).Compact")) {
 			c.requireGuard(rule, cd, Site{k, "db.Compact"}, cmpFact(vFieldLoad("FileInfo.MaxTXID", nil), token.GTR, vFieldLoad("FileInfo.MinTXID", nil), "source max TXID > destination's last MinTXID"))
-			c.check(vFieldLoad("CompactionLevel.Level", nil)(k.Common().Args[2]), rule, fnName(cd)+": compacts into the scheduled level", c.pos(k), "lvl.Level", "wrong level")
+			c.check(vFieldLoad("CompactionLevel.Level", nil)(refArgs(k)[2]), rule, fnName(cd)+": compacts into the scheduled level", c.pos(k), "lvl.Level", "wrong level")
 		}
 		for _, r := range successReturns(cd) {
 			_ = r
@@ -453,7 +457,7 @@ func runC05Handoff(c *Ctx) {
 			werr := resultOf(w, 1)
 			var cw ssa.CallInstruction
 			for _, call := range callsTo(fn, nameIs("(*io.PipeReader).CloseWithError")) {
-				if vIs(werr)(call.Common().Args[1]) {
+				if vIs(werr)(refArgs(call)[1]) {
 					cw = call
 				}
 			}
